@@ -49,6 +49,8 @@ def gen_cases(ctx):
     for api in (1, 2, 3, 4):
         for _ in range(8 if ctx.quick else 60):
             cases.append(nc.make_case(rng, rng.choice([1, 2, 3, 5, 8, 9, 13, 17]), 0, api=api))
+    # the caller reuses its output arrays over the calls of a case / passes non-empty output arrays
+    cases += nc.reuse_cases(rng, [0], 4 if ctx.quick else 24)
     return cases
 
 
@@ -79,7 +81,7 @@ def run(ctx):
         dist["self_notification"] += 1 if any(p in pat[p] for pat in c.patterns for p in range(c.P)) else 0
         ctx.count_case(c.text(), nontrivial=c.P > 1 and any(len(x) for pat in c.patterns for x in pat))
         for kind, text, detail in nc.judge(c, r):
-            kk = nc.known_key(c, kind)
+            kk = nc.known_key(c, kind, text)
             key = kk or ("%s:%s" % (kind, c.key()))
             rep = dict(case=c.to_json(), kind=kind)
             rep.update(detail)
